@@ -29,6 +29,18 @@ def run(chk, tier, overlays=()):
     accumulators(chk, P, tls)
     coupling(chk, P)
     dispatch(chk, P)
+    # the executor's own exactly-once / serialised-finish protocol is part of what makes the totals schedule-independent:
+    # share C33's rules on ParallelExecutor.cpp (index striping, initialize<execute<barrier(finish under lock))
+    from . import c33
+    from ..lockset import LockModel
+    u2 = units_matching(r"SimTKcommon/src/ParallelExecutor\.cpp$")
+    P2 = Program(extract(u2, hdr=c33.HDR, overlays=overlays))
+    chk.units += u2
+    L2 = LockModel(P2)
+    chk.rule("STRIDE", "shared with C33: worker k executes indices k, k+n, ... with n fixed at thread start and equal to the number of ThreadInfo objects 0..numMaxThreads-1")
+    chk.rule("ORDER", "shared with C33: initialize() precedes execute(i); every execute is followed by the barrier whose finish() call runs under runMutex; execute() blocks until all workers are done")
+    c33.stride(chk, P2, L2)
+    c33.protocol(chk, P2, L2)
     chk.assumptions += ["user ForceImpl::calcForce bodies write only through their three array arguments",
                         "a ParallelExecutor is driven by one owner thread at a time (C33)"]
 
